@@ -200,5 +200,19 @@ let () =
   | _ :: "judge" :: alpha :: wrapk :: _ -> run_judge alpha wrapk
   | _ :: "tokens" :: _ ->
     List.iter (fun r -> print_endline (of_model (run_tokens (to_model r)))) (read_records ())
+  | _ :: "parse" :: _ ->
+    List.iter (fun r -> print_endline (of_model (run_parse_file (to_model r)))) (read_records ())
+  | _ :: (("expr" | "stmt" | "stmts2" | "stmts3") as m) :: _ ->
+    let cut s = (* entry points other than parse_file do not return the comment list *)
+      let n = String.length s in
+      let rec find i = if i + 2 >= n then None
+        else if s.[i] = ' ' && s.[i+1] = '|' && s.[i+2] = ' ' then Some i else find (i + 1) in
+      if n >= 2 && String.sub s 0 2 = "OK" then
+        (match find 0 with Some i -> String.sub s 0 i | None -> s) else s in
+    let rec nat_of_int i = if i = 0 then O else S (nat_of_int (i - 1)) in
+    let f = match m with
+      | "expr" -> run_parse_expr | "stmt" -> run_parse_stmt
+      | "stmts2" -> run_parse_stmts (nat_of_int 2) | _ -> run_parse_stmts (nat_of_int 3) in
+    List.iter (fun r -> print_endline (cut (of_model (f (to_model r))))) (read_records ())
   | _ :: "enum" :: args -> run_enum args
   | _ -> prerr_endline "usage: gm <tokens|enum ...>"; exit 2
